@@ -284,19 +284,31 @@ def rule_r3(ck, prog, S):
     # for every doubled delimiter, so a test of the source index against the buffer length cuts text that still fits
     st2 = K.site(g, "copy-limited-by-destination", 0)
     cap = g.params[2]["name"]
+    bufname = g.params[1]["name"]
     dst = src = None
-    for n, t in C.stores(g):
-        if t.k == "ArraySubscriptExpr" and t.child(0).strip_all_casts().get("path") == g.params[1]["name"] and n.get("op") == "=":
-            r = n.child(1).strip_all_casts()
-            if r.k == "ArraySubscriptExpr":
-                dst = t.child(1).strip_all_casts().get("path")
-                src = r.child(1).strip_all_casts().get("path")
+    host = g
+    for h in hosts:
+        # in a helper the buffer and its capacity are the parameters that receive them
+        bn, cn = bufname, cap
+        if h is not g:
+            for c_ in g.calls(h.name):
+                ap = [a_.strip_all_casts().get("path") for a_ in C.call_args(c_)]
+                if bufname in ap and cap in ap and len(h.params) >= len(ap):
+                    bn, cn = h.params[ap.index(bufname)]["name"], h.params[ap.index(cap)]["name"]
+        for n, t in C.stores(h):
+            if t.k == "ArraySubscriptExpr" and t.child(0).strip_all_casts().get("path") == bn and n.get("op") == "=":
+                r = n.child(1).strip_all_casts()
+                if r.k == "ArraySubscriptExpr":
+                    dst = t.child(1).strip_all_casts().get("path")
+                    src = r.child(1).strip_all_casts().get("path")
+                    host, cap = h, cn
+    g_copy = host
     if not dst or not src or dst == src:
         ck.undecided("C07-R3", st2, K.loc(g), "copy statement `buffer[i_to] = token[i_from]` not found")
     else:
         bad = good = None
-        loops_ = C.loops(g)
-        for b in g.blocks.values():
+        loops_ = C.loops(g_copy)
+        for b in g_copy.blocks.values():
             c = b.cond
             if c is None or c.k != "BinaryOperator" or c.get("op") not in ("<", "<=", ">", ">=", "==", "!="):
                 continue
